@@ -8,6 +8,14 @@
  *                            same spelling, set/get a value, remove, destroy; then cif_normalize of it
  *   api16 list <n> <m> <i>   a list of n elements; clone it; insert m more elements at index min(i, size) into the CLONE and
  *                            into the original, read all back, remove every second one, free
+ *   api16 misc <n>           public functions no other family calls, valid and documented error paths: cif_cstr_to_ustr,
+ *                            cif_get_api_version, cif_parse_error_die / _ignore (directly and as the callback of a parse of an
+ *                            erroneous text), cif_value_clean on every kind, cif_u_strdup
+ *   api16 verr <n>           documented error exits of the value functions: wrong kind of value, index out of range, NULL text,
+ *                            invalid kind code, non-numeric text, absent key, invalid number-initialisation arguments
+ *   api16 herr <n>           documented error exits of the handle functions: NULL / stale container and loop handles (the
+ *                            object destroyed through another handle), NULL iterator location, duplicate category
+ *                            (CIF_CAT_NOT_UNIQUE), duplicates and absent names
  *   api16 text <hex>         the string as a character value: copy_char, set_quoted(NOT_QUOTED), analyze, as value of a scalar
  *                            stored and read back, written with cif_write (2.0 and 1.1) to memory
  */
@@ -109,11 +117,194 @@ static void do_text(UChar *s, size_t len) {
     cif_value_free(v); cif_value_free(w); if (b) cif_container_free(b); if (cif) cif_destroy(cif);
 }
 
+
+/* every value kind, built through the public API */
+static cif_value_tp *mkkind(int which) {
+    cif_value_tp *v = NULL, *e = NULL;
+    UChar t[] = { '1', '.', '5', '(', '2', ')', 0 }, k[] = { 'k', 0 };
+    switch (which) {
+    case 0: cif_value_create(CIF_UNK_KIND, &v); break;
+    case 1: cif_value_create(CIF_NA_KIND, &v); break;
+    case 2: cif_value_create(CIF_UNK_KIND, &v); cif_value_copy_char(v, k); break;
+    case 3: cif_value_create(CIF_UNK_KIND, &v); { UChar *c = cif_u_strdup(t); if (cif_value_parse_numb(v, c) != CIF_OK) free(c); } break;
+    case 4: cif_value_create(CIF_LIST_KIND, &v); cif_value_create(CIF_UNK_KIND, &e); cif_value_copy_char(e, k); cif_value_insert_element_at(v, 0, e); cif_value_insert_element_at(v, 1, e); break;
+    default: cif_value_create(CIF_TABLE_KIND, &v); cif_value_create(CIF_UNK_KIND, &e); cif_value_copy_char(e, k); cif_value_set_item_by_key(v, k, e); break;
+    }
+    cif_value_free(e);
+    return v;
+}
+
+static void do_misc(int n) {
+    int rc[40], i = 0, w;
+    UChar *u = NULL;
+    char *ver = NULL;
+    const char *srcs[] = { "abc", "", "\xc3\xa9t\xc3\xa9", "\xff\xfe bad utf8", "a" };
+    (void) n;
+    for (w = 0; w < 5; w++) { u = NULL; rc[i++] = cif_cstr_to_ustr(srcs[w], w == 4 ? 1 : -1, &u); free(u); }
+    u = (UChar *) 1; rc[i++] = cif_cstr_to_ustr(NULL, -1, &u);              /* NULL source: *ustr = NULL */
+    rc[i++] = (u == NULL) ? 0 : -1;
+    rc[i++] = cif_cstr_to_ustr("x", -1, NULL);                               /* no destination */
+    rc[i++] = cif_get_api_version(&ver); if (ver) { rc[i++] = (int) strlen(ver) > 0; free(ver); }
+    rc[i++] = cif_get_api_version(NULL);
+    rc[i++] = cif_parse_error_die(CIF_INVALID_ITEMNAME, 1, 1, NULL, 0, NULL);
+    rc[i++] = cif_parse_error_ignore(CIF_INVALID_ITEMNAME, 1, 1, NULL, 0, NULL);
+    for (w = 0; w < 2; w++) {
+        /* an erroneous document (duplicate data name, unterminated quoted string) parsed with each of the two callbacks */
+        static const char doc[] = "#\\#CIF_2.0\ndata_d\n_a 1\n_a 2\n_b 'unterminated\n_c [1 2\n";
+        struct cif_parse_opts_s *po = NULL;
+        cif_tp *cif = NULL;
+        FILE *f = fmemopen((void *) doc, sizeof doc - 1, "r");
+        cif_parse_options_create(&po);
+        po->error_callback = w ? cif_parse_error_ignore : cif_parse_error_die;
+        rc[i++] = cif_parse(f, po, &cif);
+        fclose(f); free(po);
+        if (cif) cif_destroy(cif);
+    }
+    for (w = 0; w < 6; w++) {
+        cif_value_tp *v = mkkind(w);
+        UChar t[] = { 'z', 0 };
+        cif_value_clean(v); rc[i++] = (int) cif_value_kind(v);
+        cif_value_clean(v);                                                   /* cleaning twice is allowed */
+        rc[i++] = cif_value_copy_char(v, t);                                  /* the cleaned object is reusable */
+        cif_value_free(v);
+    }
+    { UChar e[] = { 0 }, *d = cif_u_strdup(e); rc[i++] = d ? 0 : -1; free(d); d = cif_u_strdup(NULL); rc[i++] = d ? -1 : 0; free(d); }
+    OUT("a16 misc");
+    { int j; for (j = 0; j < i; j++) OUT(" %d", rc[j]); }
+}
+
+static void do_verr(int n) {
+    int rc[240], i = 0, w;
+    UChar k[] = { 'k', 0 }, absent[] = { 'q', 0 }, notnum[] = { 'x', 'y', 0 }, bad[] = { 'a', 0xFFFF, 0 };
+    cif_value_tp *x = NULL;
+    (void) n;
+    rc[i++] = cif_value_create((cif_kind_tp) 99, &x);                        /* invalid kind code */
+    rc[i++] = cif_value_create((cif_kind_tp) -1, &x);
+    for (w = 0; w < 6; w++) {
+        cif_value_tp *v = mkkind(w), *e = NULL, *c = NULL;
+        const UChar **keys = NULL;
+        UChar *txt = NULL;
+        size_t cnt = 0;
+        double d = 0;
+        rc[i++] = cif_value_get_element_count(v, &cnt);
+        rc[i++] = cif_value_get_element_at(v, 0, &e);
+        rc[i++] = cif_value_get_element_at(v, 7, &e);
+        rc[i++] = cif_value_set_element_at(v, 7, v);
+        rc[i++] = cif_value_insert_element_at(v, 9, v);
+        rc[i++] = cif_value_remove_element_at(v, 5, NULL);
+        e = NULL; rc[i++] = cif_value_remove_element_at(v, 5, &e); cif_value_free(e);
+        rc[i++] = cif_value_get_keys(v, &keys); if (keys) free(keys);
+        rc[i++] = cif_value_set_item_by_key(v, bad, NULL);                    /* not a valid key */
+        rc[i++] = cif_value_get_item_by_key(v, absent, &e);
+        rc[i++] = cif_value_remove_item_by_key(v, absent, NULL);
+        e = NULL; rc[i++] = cif_value_remove_item_by_key(v, absent, &e);
+        rc[i++] = cif_value_get_number(v, &d);
+        rc[i++] = cif_value_get_su(v, &d);
+        rc[i++] = cif_value_get_text(v, &txt); free(txt);
+        rc[i++] = cif_value_set_quoted(v, CIF_NOT_QUOTED);
+        rc[i++] = (int) cif_value_is_quoted(v);
+        rc[i++] = cif_value_clone(v, &c); cif_value_free(c);
+        cif_value_free(v);
+    }
+    {
+        cif_value_tp *v = NULL;
+        double d;
+        cif_value_create(CIF_UNK_KIND, &v);
+        rc[i++] = cif_value_copy_char(v, NULL);
+        rc[i++] = cif_value_init_char(v, NULL);
+        rc[i++] = cif_value_copy_char(v, notnum);
+        rc[i++] = cif_value_get_number(v, &d);                                /* text that is not a number */
+        rc[i++] = cif_value_get_su(v, &d);
+        { UChar *c = cif_u_strdup(notnum); if ((rc[i++] = cif_value_parse_numb(v, c)) != CIF_OK) free(c); }
+        rc[i++] = cif_value_init_numb(v, 1.0, -1.0, 2, 1);                    /* negative su */
+        rc[i++] = cif_value_init_numb(v, 1.0, 0.1, -400, 1);
+        rc[i++] = cif_value_init_numb(v, 1.0, 0.1, 2, 0);
+        rc[i++] = cif_value_autoinit_numb(v, 1.0, -0.5, 19);
+        rc[i++] = cif_value_autoinit_numb(v, 1.0, 0.5, 1);
+        rc[i++] = cif_value_init(v, (cif_kind_tp) 77);
+        rc[i++] = cif_value_init(v, CIF_TABLE_KIND);
+        rc[i++] = cif_value_set_item_by_key(v, k, v);                         /* a table holding a copy of itself */
+        rc[i++] = cif_value_try_quoted(v, CIF_NOT_QUOTED);
+        cif_value_free(v);
+    }
+    OUT("a16 verr");
+    { int j; for (j = 0; j < i; j++) OUT(" %d", rc[j]); }
+}
+
+static void do_herr(int n) {
+    int rc[80], i = 0;
+    cif_tp *cif = NULL;
+    cif_block_tp *b = NULL, *b2 = NULL;
+    cif_frame_tp *f = NULL, *f2 = NULL;
+    cif_loop_tp *l1 = NULL, *l1b = NULL, *l2 = NULL, *l3 = NULL, *lx = NULL;
+    cif_packet_tp *p = NULL;
+    cif_pktitr_tp *it = NULL;
+    cif_value_tp *v = NULL;
+    UChar bc[] = { 'b', 0 }, fc[] = { 'f', 0 }, cat[] = { 'c', 0 }, na[] = { '_', 'a', 0 }, nb[] = { '_', 'b', 0 }, nc[] = { '_', 'c', 0 },
+          nd[] = { '_', 'd', 0 }, badname[] = { 'n', 'o', 0 }, *names1[] = { na, NULL }, *names2[] = { nb, NULL }, *names3[] = { nc, NULL },
+          *dup[] = { nd, nd, NULL }, *none[] = { NULL }, **got = NULL, *cat2 = NULL;
+    (void) n;
+    rc[i++] = cif_create(NULL);
+    if (cif_create(&cif) != CIF_OK) { OUT("a16 create-failed"); return; }
+    rc[i++] = cif_container_destroy(NULL);
+    rc[i++] = cif_create_block(cif, bc, &b);
+    rc[i++] = cif_create_block(cif, bc, &b2);                                 /* duplicate code */
+    rc[i++] = cif_get_block(cif, fc, &b2);                                    /* no such block */
+    rc[i++] = cif_get_block(cif, bc, &b2);
+    rc[i++] = cif_container_create_frame(b, fc, &f);
+    rc[i++] = cif_container_get_frame(b, fc, &f2);
+    rc[i++] = cif_container_destroy(f);                                       /* destroys the frame and frees this handle … */
+    rc[i++] = cif_container_destroy(f2); f2 = NULL;                           /* … so the second handle is stale */
+    rc[i++] = cif_container_create_loop(b, cat, names1, &l1);
+    rc[i++] = cif_container_create_loop(b, cat, names2, &l2);                 /* a second loop of the same category */
+    rc[i++] = cif_container_get_category_loop(b, cat, &lx);                   /* CIF_CAT_NOT_UNIQUE */
+    rc[i++] = cif_container_get_category_loop(b, badname, &lx);
+    rc[i++] = cif_container_create_loop(b, NULL, names1, &l3);                /* item already in a loop */
+    rc[i++] = cif_container_create_loop(b, NULL, dup, &l3);
+    rc[i++] = cif_container_create_loop(b, NULL, none, &l3);
+    rc[i++] = cif_container_create_loop(b, NULL, names3, &l3);
+    rc[i++] = cif_container_get_item_loop(b, na, &l1b);                       /* a second handle on loop 1 */
+    rc[i++] = cif_container_get_item_loop(b, badname, &lx);
+    rc[i++] = cif_loop_get_packets(l1, NULL);                                 /* no place for the iterator */
+    rc[i++] = cif_loop_get_packets(l1, &it);                                  /* no packets yet */
+    if (it) { cif_pktitr_abort(it); it = NULL; }
+    rc[i++] = cif_loop_destroy(l1); l1 = NULL;                                /* frees that handle; l1b is now stale */
+    cif_value_create(CIF_UNK_KIND, &v);
+    cif_packet_create(&p, names1); cif_packet_set_item(p, na, v);
+    rc[i++] = cif_loop_add_item(l1b, nd, v);
+    rc[i++] = cif_loop_add_packet(l1b, p);
+    rc[i++] = cif_loop_get_names(l1b, &got); if (got) { int j; for (j = 0; got[j]; j++) free(got[j]); free(got); got = NULL; }
+    rc[i++] = cif_loop_get_packets(l1b, &it); if (it) { cif_pktitr_abort(it); it = NULL; }
+    rc[i++] = cif_loop_get_category(l1b, &cat2); free(cat2); cat2 = NULL;
+    rc[i++] = cif_loop_set_category(l1b, nd);
+    if ((rc[i++] = cif_loop_destroy(l1b)) == CIF_OK) l1b = NULL;               /* CIF_INVALID_HANDLE: the handle stays the caller's */
+    { cif_packet_tp *q = NULL; cif_packet_create(&q, NULL); rc[i++] = cif_loop_add_packet(l2, q); cif_packet_free(q); }   /* empty packet */
+    rc[i++] = cif_loop_add_packet(l2, p);                                     /* packet for items the loop does not have */
+    rc[i++] = cif_container_set_value(b, badname, v);
+    rc[i++] = cif_container_get_value(b, nd, NULL);
+    rc[i++] = cif_container_remove_item(b, nd);
+    rc[i++] = cif_container_prune(b);
+    rc[i++] = cif_container_destroy(b2); b2 = NULL;                           /* destroys the block … */
+    rc[i++] = cif_container_set_value(b, na, v);                              /* … so `b` and the loops are stale */
+    rc[i++] = cif_loop_add_packet(l2, p);
+    rc[i++] = cif_container_create_frame(b, fc, &f2);
+    rc[i++] = cif_container_destroy(b); b = NULL;
+    OUT("a16 herr");
+    { int j; for (j = 0; j < i; j++) OUT(" %d", rc[j]); }
+    cif_packet_free(p); cif_value_free(v);
+    if (l1b) cif_loop_free(l1b); if (l2) cif_loop_free(l2); if (l3) cif_loop_free(l3); if (lx) cif_loop_free(lx);
+    if (f2) cif_container_free(f2);
+    cif_destroy(cif);
+}
+
 static void handle(int argc, char **argv) {
     UChar *s = NULL; size_t len = 0;
     if (argc == 3 && !strcmp(argv[1], "key") && unhex(argv[2], &s, &len) && s) { do_key(s, len); free(s); }
     else if (argc == 3 && !strcmp(argv[1], "name") && unhex(argv[2], &s, &len) && s) { do_name(s, len); free(s); }
     else if (argc == 3 && !strcmp(argv[1], "text") && unhex(argv[2], &s, &len) && s) { do_text(s, len); free(s); }
     else if (argc == 5 && !strcmp(argv[1], "list")) do_list(atoi(argv[2]), atoi(argv[3]), atoi(argv[4]));
+    else if (argc == 3 && !strcmp(argv[1], "misc")) do_misc(atoi(argv[2]));
+    else if (argc == 3 && !strcmp(argv[1], "verr")) do_verr(atoi(argv[2]));
+    else if (argc == 3 && !strcmp(argv[1], "herr")) do_herr(atoi(argv[2]));
     else OUT("bad-op");
 }
